@@ -111,6 +111,12 @@ def run(chk, facts, tier):
                 kinds.append('clamp')
                 ats = guard_atoms(fn, st)
                 okb = okb and any(op2 == '>' and cval(r) == 0 for l, op2, r in ats) and any(strip_casts(l).n == 'first' for l, op2, r in ats if not isinstance(l, int))
+                # the distance to the instant is a difference of two wrapping 16 bit event counters: it has to be reduced modulo 2^16 (after the counter
+                # wrapped, instant - counter as int is negative / off by 65536 and the clamp is skipped: the instant is slept over)
+                dist = [a for a in strip_casts(val).args() if not is_name(a, lat)]
+                okm = len(dist) == 1 and any(w in (dist[0].t or '') for w in ('uint16_t', 'unsigned short'))
+                chk.instance('latency-bounded', fn, 'distance to the pending instant is a 16 bit modular difference (%s)' % (dist[0].t if dist else '?'), okm,
+                             '' if okm else 'the distance to the pending instant is not reduced modulo 2^16: across a wrap of the event counter the instant is not seen as ahead and skipped', node=st, key='modular-distance')
             else:
                 kinds.append('other')
         ok = okb and sorted(kinds) == ['clamp', 'inc', 'reset']
